@@ -326,4 +326,10 @@ theorem findWordsUnicode_total_ownlb (env : Env) (T : LbTables) (henv : env.opps
     ∃ ws, findWordsUnicode env line = some ws :=
   _root_.TW.findWordsUnicode_total env line (boundary_own env T henv (stripAnsi line))
 
+/-- the hypothesis `HardFree` is satisfiable (a test, labelled as such) -/
+example : HardFree ['a', 'b', ' ', 'c', '-', 'd', 'é', '字'] := by
+  intro c hc
+  simp only [List.mem_cons, List.mem_nil_iff, or_false] at hc
+  rcases hc with rfl | rfl | rfl | rfl | rfl | rfl | rfl | rfl <;> decide +kernel
+
 end TW.C11
